@@ -110,6 +110,12 @@ var glSpecs = []glSpec{
 	{"compactindexsized", "Bucket", "Lookup", "ciBucketLookup"},
 	{"compactindexsized", "DB", "LookupBucket", "ciLookupBucket"},
 	{"compactindexsized", "DB", "Lookup", "ciDBLookup"},
+	{"bucketteer", "", "newUint16Layout", "bkNewLayout"},
+	{"bucketteer", "", "newUint16LayoutPointer", "bkNewLayoutPtr"},
+	{"bucketteer", "", "isReaderEmpty", "bkIsReaderEmpty"},
+	{"bucketteer", "", "readHeaderSize", "bkReadHeaderSize"},
+	{"bucketteer", "", "readHeader", "bkReadHeader"},
+	{"bucketteer", "", "NewReader", "bkNewReader"},
 	{"bucketteer", "", "Hash", "bkHash"},
 	{"bucketteer", "", "readUint64Le", "bkReadUint64Le"},
 	{"bucketteer", "Reader", "Has", "bkReaderHas"},
@@ -141,7 +147,7 @@ var glExterns = map[string]glExtern{
 }
 
 // functions whose Go errors are data (they inspect, compare and return error VALUES such as io.EOF)
-var glErrData = map[string]bool{"scfMultiReadAt": true, "uvrReadUvarint": true, "uvrReadByte": true, "oassFromReader": true, "oassSliceFromBytes": true, "llDecompressIndexes": true, "llReadWithSize": true, "llRead": true, "bkReadUint64Le": true, "bkReaderHas": true, "ciOpen": true, "ciReadFrom": true, "ciGetBucket": true, "ciLoadEntry": true, "ciBucketLookup": true, "ciLookupBucket": true, "ciDBLookup": true}
+var glErrData = map[string]bool{"scfMultiReadAt": true, "uvrReadUvarint": true, "uvrReadByte": true, "oassFromReader": true, "oassSliceFromBytes": true, "llDecompressIndexes": true, "llReadWithSize": true, "llRead": true, "bkReadUint64Le": true, "bkReaderHas": true, "bkIsReaderEmpty": true, "bkReadHeaderSize": true, "bkReadHeader": true, "bkNewReader": true, "ciOpen": true, "ciReadFrom": true, "ciGetBucket": true, "ciLoadEntry": true, "ciBucketLookup": true, "ciLookupBucket": true, "ciDBLookup": true}
 
 var leanKeywords = map[string]bool{}
 
@@ -405,6 +411,7 @@ func (g *glGen) analyse() {
 			if sig.Recv() != nil {
 				recvObj = sig.Recv()
 			}
+			aliases := aliasesIn(f.p, f.decl.Body)
 			mark := func(e ast.Expr) {
 				// root identifier of an lvalue-like expression
 				for {
@@ -439,6 +446,13 @@ func (g *glGen) analyse() {
 				obj := f.p.TypesInfo.Uses[id]
 				if obj == nil {
 					return
+				}
+				for k := 0; k < 8; k++ { // a write through an alias is a write to the aliased parameter
+					if a, ok := aliases[obj]; ok {
+						obj = a
+					} else {
+						break
+					}
 				}
 				if obj == recvObj {
 					if _, isPtr := sig.Recv().Type().(*types.Pointer); isPtr && !f.mutRecv {
@@ -514,9 +528,46 @@ func (g *glGen) analyse() {
 	}
 }
 
+// aliasWorthy: values with reference semantics and internal state (a stream position): `x := y` makes x another NAME for
+// the same object, so the translation gives both the same Lean variable
+func aliasWorthy(t types.Type) bool {
+	if isByteDecoder(t) || glDevirt(t) != nil {
+		return true
+	}
+	if pt, ok := t.(*types.Pointer); ok && isNamed(pt.Elem(), "bytes", "Reader") {
+		return true
+	}
+	return false
+}
+
+// aliasesIn: local `x := y` definitions between alias-worthy identifiers (x ↦ y)
+func aliasesIn(p *packages.Package, n ast.Node) map[types.Object]types.Object {
+	out := map[types.Object]types.Object{}
+	ast.Inspect(n, func(n ast.Node) bool {
+		as, ok := n.(*ast.AssignStmt)
+		if !ok || as.Tok != token.DEFINE || len(as.Lhs) != 1 || len(as.Rhs) != 1 {
+			return true
+		}
+		lid, lok := as.Lhs[0].(*ast.Ident)
+		rid, rok := ast.Unparen(as.Rhs[0]).(*ast.Ident)
+		if !lok || !rok {
+			return true
+		}
+		lo, ro := p.TypesInfo.Defs[lid], p.TypesInfo.Uses[rid]
+		if lo != nil && ro != nil && aliasWorthy(ro.Type()) {
+			out[lo] = ro
+		}
+		return true
+	})
+	return out
+}
+
 func refLike(t types.Type) bool {
 	if glDevirt(t) != nil {
 		return true
+	}
+	if isByteDecoder(t) {
+		return true // a byte decoder handed to a callee comes back advanced
 	}
 	switch u := t.Underlying().(type) {
 	case *types.Slice:
@@ -1371,6 +1422,19 @@ func (c *glCtx) assign(s *ast.AssignStmt, errIdiom bool) {
 	}
 	if len(s.Lhs) != len(s.Rhs) {
 		c.fail(s, "assignment arity")
+	}
+	if len(s.Lhs) == 1 && s.Tok == token.DEFINE {
+		// `x := y` between stream-like values: x is another name for y
+		if lid, ok := s.Lhs[0].(*ast.Ident); ok {
+			if rid, ok := ast.Unparen(s.Rhs[0]).(*ast.Ident); ok {
+				lo, ro := c.p.TypesInfo.Defs[lid], c.p.TypesInfo.Uses[rid]
+				if lo != nil && ro != nil && aliasWorthy(ro.Type()) && c.declared[ro] {
+					c.names[lo] = c.nameOf(ro)
+					c.declared[lo] = true
+					return
+				}
+			}
+		}
 	}
 	if len(s.Lhs) == 1 {
 		if id, ok := s.Lhs[0].(*ast.Ident); ok {
